@@ -92,17 +92,27 @@ for (n, m, tier) in ((0, 0, 'quick'), (1, 0, 'thorough'), (1, 1, 'quick'), (6, 2
     add(P, 'set_queries', n, m, tier, cap=900)
     if n <= 64 or m <= 2:
         add(P, 'set_iters', n, m, tier if m <= 4 else 'thorough', cap=900)
-for (n, m, tier) in ((0, 0, 'quick'), (5, 0, 'thorough'), (6, 2, 'quick'), (12, 3, 'thorough'), (5, 5, 'thorough'), (16, 2, 'thorough')):
-    add(P, 'set_bits', n, m, tier, mem=16)
+for (n, m, tier) in ((0, 0, 'quick'), (5, 0, 'thorough'), (3, 1, 'quick'), (6, 2, 'thorough'), (12, 3, 'thorough'), (5, 5, 'thorough'), (16, 2, 'thorough')):
+    add(P, 'set_bits', n, m, tier, mem=28)
 
 P = 'C15'
 for (n, m, tier) in ((1, 1, 'quick'), (6, 3, 'quick'), (12, 3, 'thorough'), (4, 6, 'thorough'), (2, 4, 'quick'), (3, 1, 'thorough'), (16, 4, 'thorough'), (2, 9, 'thorough'), (1 << 63, 3, 'thorough'), (1 << 63, 2, 'quick'), ((1 << 64) - 1, 2, 'thorough')):
     add(P, 'multiset_queries', n, m, tier, multi=True, cap=900)
-for (n, m, tier) in ((6, 3, 'quick'), (12, 3, 'thorough'), (4, 6, 'thorough'), (8, 4, 'thorough')):
-    add(P, 'multiset_bits', n, m, tier, multi=True, mem=16)
-for m in (0, 1, 3):
-    inst(P, 'c15_try_from_iter_m%d' % m, 'c02::try_from_iter(%d)' % m, tier='quick', unwind=42, unwindset=sparse_uw(40, m, 1, True), stubs=SPARSE, cap=900, mem=6,
-         desc='SparseVector::try_from_iter: %d symbolic values < 40, accepts exactly non-decreasing input, universe = last+1' % m, shape={'values': m})
+for (n, m, tier) in ((2, 2, 'quick'), (6, 3, 'thorough'), (12, 3, 'thorough'), (4, 6, 'thorough'), (8, 4, 'thorough')):
+    add(P, 'multiset_bits', n, m, tier, multi=True, mem=28)
+class TF:
+    def __init__(self, m, last):
+        self.a = (m, last)
+
+    def __str__(self):
+        m, last = self.a
+        return 'c02::try_from_iter(%d, %d, %d)' % (m, last, native.sparse_width(last + 1 if m else 0, m, True))
+
+
+for (m, last) in ((0, 0), (1, 5), (3, 9), (3, 0)):
+    i = inst(P, 'c15_try_from_iter_m%d_last%d' % (m, last), TF(m, last), tier='quick', unwind=42, stubs=SPARSE, cap=900, mem=8,
+             desc='SparseVector::try_from_iter: %d values (last = %d, the others symbolic < 40): accepted exactly when non-decreasing, universe = last+1, select(i) = i-th value' % (m, last), shape={'values': m, 'last': last})
+    i.unwindset = LazyUW(last + 1 if m else 0, m, True)
 
 for P in ('C02', 'C15'):
     extra(P, assumptions=[
